@@ -447,7 +447,7 @@ def run_history(case, ctx):
     gsnaps = [snapshot(x) for x in graphs]
     log = []           # (description, thunk, digest)
     used = set()
-    n_repeat = n_swap = n_rejected = 0
+    n_repeat = n_swap = n_rejected = n_sandwich = 0
 
     def check_pool(step):
         for i, x in enumerate(pool):
@@ -517,6 +517,7 @@ def run_history(case, ctx):
             n_rejected += 1
             check_pool("a rejected call %s(%s)" % (o["fn"], o["bad"]))
             if valid is not None:
+                n_sandwich += 1
                 after = digest(guarded(valid))
                 ctx.require(after == before, "not_repeatable",
                             lambda: "op %d: %s on two pooled diagrams gives a different result after an intervening call of the same function on invalid input (%s) "
@@ -583,7 +584,8 @@ def run_history(case, ctx):
                         lambda: "%s: result for %s-form inputs differs from %s/%s-form inputs (%d vs %d numbers; first difference %s)"
                         % (o["fn"], form, fa, fb, len(other), len(base), next(((u, v) for u, v in zip(base, other) if not close(u, v, max(1.0, abs(u)), rel=rel)), None)))
     ctx.label("entry_points=%d" % min(len(used), 8), "with_rejected_call" if n_rejected else None, *("fn:" + u for u in sorted(used)))
-    ctx.nontrivial(len(case["ops"]) >= 6 and len(used) >= 4 and n_repeat >= 1 and n_swap >= 1)
+    ctx.label("rejected_call_between_two_valid_ones" if n_sandwich else None)
+    ctx.nontrivial((len(case["ops"]) >= 6 and len(used) >= 4 and n_repeat >= 1 and n_swap >= 1) or n_sandwich >= 1)
 
 
 def VALID_DEFAULT(case):
@@ -614,8 +616,8 @@ def VALID_DEFAULT(case):
 
 CLAUSES = [
     Clause("history", history(15), run_history, quick=640, thorough=8000,
-           rule="3..15 steps over 19 diagram entry points, 6 entry points fed the diagram with infinite deaths, + 2 graph entry points; non-trivial = >= 6 steps, >= 4 distinct entry points, at least "
-                "one repeat and one representation swap"),
+           rule="3..15 steps over 19 diagram entry points, 6 entry points fed the diagram with infinite deaths, + 2 graph entry points; non-trivial = (>= 6 steps, >= 4 distinct entry points, at least "
+                "one repeat and one representation swap) or a rejected call sandwiched between two valid ones"),
     Clause("rejected_calls", history(8, rejected_weight=12), run_history, quick=960, thorough=12000,
            rule="as history with 3..8 steps of which about half are calls on INVALID input sandwiched between two identical valid calls of the same entry point"),
     Clause("long_history", history(40), run_history, quick=64, thorough=1600,
